@@ -302,6 +302,26 @@ def cheb_pred(A, X, a, b):
     return v[:, 0]
 
 
+def kappa_func(A, X, a, b, lamb):
+    """Condition-number bound (||A_k||_F^2 + lamb)/lamb of the per-core normal equations of als_func at the tensor A."""
+    d = X.shape[1]
+    m = X.shape[0]
+    T = [(2 * X[:, k] - a - b) / (b - a) for k in range(d)]
+    Hs = [np.polynomial.chebyshev.chebvander(T[k], A[k].shape[1] - 1) for k in range(d)]
+    left = [np.ones((m, 1))]
+    for k in range(d - 1):
+        left.append(np.einsum('sa,sj,ajb->sb', left[-1], Hs[k], A[k]))
+    right = [np.ones((m, 1))]
+    for k in range(d - 1, 0, -1):
+        right.append(np.einsum('sj,ajb,sb->sa', Hs[k], A[k], right[-1]))
+    right = right[::-1]
+    kap = 1.0
+    for k in range(d):
+        a2 = float(((left[k] ** 2).sum(axis=1) * (Hs[k] ** 2).sum(axis=1) * (right[k] ** 2).sum(axis=1)).sum())
+        kap = max(kap, (a2 + lamb) / lamb)
+    return kap
+
+
 def Jf(A, X, y, a, b, lamb):
     return float(((cheb_pred(A, X, a, b) - y) ** 2).sum() + lamb * sum(float((G ** 2).sum()) for G in A))
 
@@ -342,8 +362,11 @@ def prop_func(case, ctx):
     scale = float(np.einsum('sa,sj,sb->', np.abs(L), np.abs(Hs[1]), np.abs(Rv))) * (float(np.max(np.abs(pred))) + float(np.max(np.abs(y)))) + lamb * float(np.max(np.abs(A[1])))
     ctx.check(float(np.max(np.abs(grad))) <= 1e-8 * scale + 1e-200, "als_func: the core updated last is not at the minimiser (ridge gradient not zero)",
               grad=float(np.max(np.abs(grad))), scale=scale)
-    tol = 1e-6
-    stable = lamb >= 1e-3
+    kap = max(kappa_func(A, X, a, b, lamb), kappa_func(A0, X, a, b, lamb))
+    tol = 1e-8 * kap                 # same conditioning-aware tolerance as for the index version
+    stable = tol <= 1e-3
+    if not stable:
+        ctx.label("metamorphic_skipped_ill_conditioned")
     aa = min(case["a"], nswp)
     if nswp - aa >= 1 and stable:
         Ab = ctx.lib(teneva.als_func, X, y, runs[aa - 1], a, b, nswp - aa, None, {}, lamb=lamb, thr_pow=0.)
